@@ -33,6 +33,7 @@ RULE = ("exhaustive (same for every seed): for each of the 4 arbiter classes, 1 
         "importance 2 and negative / mixed values; input values are distinct dyadic numbers so the chosen input is "
         "identified by the output value; distinct = distinct (class, inputs, default truth); non-trivial = at least one "
         "input selected")
+RULE = __import__("vf.core", fromlist=["rule_add"]).rule_add(RULE, 'also arbiters built from FloScript (`do` twice with class Inits, `cum` overrides, preset input selections)')
 META = {"engine": "C function",
         "technique": "differential test of the real update() against a transcription of the documented rules",
         "level_text": "exploration: all combinations over the small sets named in the rule for up to 3 (quick) / 4 "
